@@ -8,6 +8,7 @@ judged by spec/Trace_Session.tla (SolveVerdict: facts computed from all models o
 The native-deduction route (reply parsing of the Sugar family) is exercised in C03 with TLC-rendered replies."""
 import json
 import multiprocessing as mp
+from harness.par import RobustPool
 import random
 
 from harness.common import Check, NPROC, chunks, write_ndjson, canon
@@ -95,7 +96,7 @@ def loop_part(chk, tier, seed):
     if tier == "quick":      # quick: a seeded half of the 34 744 behaviours; thorough: all of them
         behs = [b for i, b in enumerate(behs) if (i + seed) % 2 == 0]
     numbered = list(enumerate(behs))
-    with mp.get_context("fork").Pool(NPROC) as pool:
+    with RobustPool(NPROC) as pool:
         outs = pool.map(run_behaviours, chunks(numbered, NPROC * 4))
     recs = [x for o in outs for x in o]
     path = chk.dir / "loop_runs.ndjson"
